@@ -55,12 +55,18 @@ class Router:
             if isinstance(message, EnableBLOB):
                 self.process_enable_blob(message, sender)
 
-            for device in self.devices:
+            # a handler may (un)register devices or clients while the message
+            # is delivered: walk a snapshot, skip what has gone meanwhile
+            for device in list(self.devices):
+                if device not in self.devices:
+                    continue
                 if not device == sender and device.accepts(message.device):
                     device.message_from_client(message)
 
         if message.from_device:
-            for client in self.clients:
+            for client in list(self.clients):
+                if client not in self.clients:
+                    continue
                 if not client == sender:
                     device_name = getattr(message, "device")
                     client_blob_policy = self.blob_routing.get(client, {}).get(
